@@ -10,6 +10,16 @@ BASELINE_OFF = ("cd /repo && env -u CNES_PANDORA_VERIF /venv/bin/python -m pytes
 
 # id -> (technique, level text, level note, design ref)
 CLAIMED = {
+    "C11": (
+        "Hypothesis-generated image pairs and cost volumes vs. naive region-enumeration reference (differential)",
+        "Exploration: generated mono-band pairs (masks, no-data, user mask convention), integer cost volumes with NaN "
+        "cells, integer and sub-pixel planes, window offsets 0-2, cbca_distance 1-6 and four intensities are aggregated "
+        "by the real step and by a per-pixel enumeration of the combined support region; values (1e-5 relative), the "
+        "NaN pattern, plane independence and untouched inputs are compared.",
+        "Trusted: pbt/ref/cbca.py (arms shorter than cbca_distance, the convention of the repository's unit tests); "
+        "costs with an outside correspondent are NaN on input; images at least 3x3.",
+        "DESIGN.md §5 C11",
+    ),
     "C06": (
         "Hypothesis-generated cost volumes / disparity maps and captured pipeline states vs. per-pixel V-fit / parabola reference",
         "Exploration: (a) direct calls on generated volumes and maps (winner samples, other samples, off-sample values, "
